@@ -274,6 +274,69 @@ func c06Exhaustive(emit func(string)) {
 	rec("", 0)
 }
 
+// directed: a small committed trie whose nodes are stored by hash (values of 31..64 bytes under keys with a
+// common prefix, optionally a value at the prefix itself), reopened, then deletions that leave a
+// branch with one child and no value (fix() merges the branch with a child it has to load from the
+// database), or with a value and no child (the branch becomes a leaf), interleaved with re-insertions
+// of the same keys; commit, reopen, read every key and its neighbours.
+func c06Merge(r *vu.RNG) string {
+	toks := []string{vu.X(uint64(r.Intn(2)))}
+	stem := [][]byte{{}, {0x12}, {0x12, 0x34}, {0xff}, {0x1f, 0xf0}}[r.Intn(5)]
+	tails := [][]byte{{0x01}, {0x10}, {0x1f}, {0xf0}, {0xff}, {0x80, 0x01}, {0x8f}, {0xf1, 0x12}}
+	keys := map[string]bool{}
+	var ks [][]byte
+	n := 2 + r.Intn(3)
+	for len(ks) < n {
+		k := append(append([]byte{}, stem...), tails[r.Intn(len(tails))]...)
+		if !keys[string(k)] {
+			keys[string(k)] = true
+			ks = append(ks, k)
+		}
+	}
+	val := func() []byte {
+		l := []int{31, 32, 33, 40, 64, 2}[r.Intn(6)]
+		v := make([]byte, l)
+		b := byte(0xc0 + r.Intn(4))
+		for i := range v {
+			v[i] = b
+		}
+		return v
+	}
+	for _, k := range ks {
+		toks = append(toks, "p:"+vu.Hex(k)+":"+vu.Hex(val()))
+	}
+	if r.Chance(1, 3) {
+		keys[string(stem)] = true
+		toks = append(toks, "p:"+vu.Hex(stem)+":"+vu.Hex(val()))
+	}
+	toks = append(toks, []string{"R", "h", "R"}[r.Intn(3)])
+	// delete all but one (or all) of the keys below the stem, in random order
+	perm := r.Intn(len(ks))
+	left := 1
+	if r.Chance(1, 4) {
+		left = 0
+	}
+	for q := 0; q < len(ks)-left; q++ {
+		k := ks[(perm+q)%len(ks)]
+		toks = append(toks, "d:"+vu.Hex(k))
+		if r.Chance(1, 5) {
+			toks = append(toks, "R")
+		}
+		if r.Chance(1, 6) {
+			toks = append(toks, "p:"+vu.Hex(k)+":"+vu.Hex(val()), "d:"+vu.Hex(k))
+		}
+	}
+	if r.Chance(1, 3) {
+		toks = append(toks, "d:"+vu.Hex(stem))
+	}
+	toks = append(toks, "R")
+	toks = append(toks, c06Probes(keys)...)
+	if r.Chance(2, 3) {
+		toks = append(toks, "D")
+	}
+	return strings.Join(toks, " ")
+}
+
 func c06Gen(r *vu.RNG, n int, emit func(string)) {
 	if vu.Thorough() {
 		c06Exhaustive(emit)
@@ -286,7 +349,11 @@ func c06Gen(r *vu.RNG, n int, emit func(string)) {
 		}
 	}
 	for i := 0; i < n; i++ {
-		emit(c06History(r))
+		if i%5 == 4 {
+			emit(c06Merge(r))
+		} else {
+			emit(c06History(r))
+		}
 	}
 }
 
